@@ -395,7 +395,9 @@ func (a *analyzer) inferClasses() map[string]string {
 					}
 					accs[it.Field][it.Acc] = true
 					for _, h := range H {
-						if h.obj == it.Obj {
+						// a lock held only for reading cannot be what guards a store (AddUser holds
+						// grpMu.R and usrMu.W around maxUid++: the guard of maxUid is usrMu)
+						if h.obj == it.Obj && !(it.Acc == "w" && h.mode != "W") {
 							lockStat[it.Field][h.lock]++
 						}
 					}
